@@ -406,7 +406,15 @@ class _FPCore2FPy:
 
         # compile condition
         cond_ctx = _Ctx(env=env, props=ctx.props, stmts=ctx.stmts)
+        num_stmts = len(ctx.stmts)
         cond_e = self._visit(e.cond, cond_ctx)
+        cond_id: NamedId | None = None
+        if len(ctx.stmts) > num_stmts:
+            # the condition needed statements (`let`, `if`, `!`): hold its value
+            # in a variable that the loop body recomputes, see below
+            cond_id = self.gensym.fresh('c')
+            ctx.stmts.append(Assign(cond_id, None, cond_e, None))
+            cond_e = Var(cond_id, None)
 
         # create loop body
         loop_env = dict(env)
@@ -427,6 +435,11 @@ class _FPCore2FPy:
             t = loop_env[var]
             stmt = Assign(v, None, Var(t, None), None)
             stmts.append(stmt)
+
+        if cond_id is not None:
+            # re-evaluate the condition with the updated loop variables
+            recond_ctx = _Ctx(env=env, props=ctx.props, stmts=stmts)
+            stmts.append(Assign(cond_id, None, self._visit(e.cond, recond_ctx), None))
 
         # append while statement
         while_stmt = WhileStmt(cond_e, StmtBlock(stmts), None)
